@@ -455,3 +455,10 @@ def inject(schema, document):
             defs2 = list(defs)
             defs2[definer] = replace(defs2[definer], vars=defs2[definer].vars[:-1] + (VarDef("zzSharedB", "Boolean!"),))
             yield "5.8.3", "shared-nested-fragment|" + tag, replace(D, defs=tuple(defs2) + (frag2, frag3))
+            # both operations define the variable used in the shared fragment, one of them with a type the position does not allow
+            defs3 = list(D.defs)
+            fn3 = rewrite.fresh(D, "ST")
+            defs3[definer] = replace(defs3[definer], vars=defs3[definer].vars + (VarDef("zzSharedT", "Int"),), sel=defs3[definer].sel + (Spread(fn3),))
+            defs3[other] = replace(defs3[other], vars=defs3[other].vars + (VarDef("zzSharedT", "String"),), sel=defs3[other].sel + (Spread(fn3),))
+            frag4 = Fragment(fn3, rt, (), (Field("__typename", "tst", (), (Directive("dq", (Arg("n", Var("zzSharedT")),)),)),))
+            yield "5.8.5", "shared-fragment|" + ("second-ill-typed" if tag == "first-defines" else "first-ill-typed"), replace(D, defs=tuple(defs3) + (frag4,))
